@@ -113,12 +113,13 @@ class Prop:
     run_fn = "run06"
     shard = 10
     rule = ("one case = one tree: every ordered forest shape with <= N nodes (N=5 quick, 7 thorough; <=4 resp. <=5 nodes with every "
-            "signal shape, larger ones with a rotating skip/stop/error shape) plus seeded random deep/wide plain and typed trees up to "
+            "signal shape, larger ones with a rotating skip/stop/error shape; 7-node shapes: visit() from every third start node) plus "
+            "seeded random deep/wide plain and typed trees up to "
             "60 (thorough 200) nodes with sampled start/signal nodes; per tree: 8 methods x every start node (and the whole tree) x "
             "add_self for iterator(), and visit() for 8 methods x add_self x every visited node as signal node x signal shapes, plus "
             "callbacks that signal at the k-th call; distinct = distinct (shape, selection); non-trivial = some skip suppressed a "
             "node or some stop cut the sequence")
-    exhaustive_note = "all forest shapes <= 5 nodes (quick) / <= 7 (thorough), every start node, every signal node"
+    exhaustive_note = "all forest shapes <= 5 nodes (quick) / <= 7 (thorough), every start node (visit: <= 6 nodes every start, 7 nodes every third), every signal node"
     assumptions = ["identity of nodes is the allocation index recorded by a harness-side wrapper of Node.__init__",
                    "the registry order read for the UNORDERED model input is tree._node_by_id.values(); only its multiset is compared",
                    "RuntimeWarning emitted for StopIteration signals is ignored (default warning filter, not 'error')"]
@@ -167,8 +168,15 @@ class Prop:
                     sn = [SKIPS[ctr % 4], STOPS[ctr % len(STOPS)], ERRS[ctr % len(ERRS)]]
                     sk = [SKIPS[(ctr + 1) % 4], STOPS[(ctr + 5) % len(STOPS)]]
                 ctr += 1
-                yield dict(typed=False, univ=univ, nodes=nodes, sn=sn, sk=sk, sel=None)
-        nrand = 24 if quick else 120
+                sel = None
+                if n >= 7:
+                    # largest exhaustive size: every start for iterator(), every third start (rotating with the
+                    # shape counter) for visit(), every signal node, three call numbers
+                    idx = list(range(1, n + 1))
+                    sel = dict(istarts=[0] + idx, vstarts=[0] + [i for i in idx if i % 3 == ctr % 3], sigs=idx,
+                               counts=[0, n // 2, n - 1])
+                yield dict(typed=False, univ=univ, nodes=nodes, sn=sn, sk=sk, sel=sel)
+        nrand = 24 if quick else 60
         top = 60 if quick else 200
         for j in range(nrand):
             n = rng.randint(8, top if j % 3 == 0 else max(8, top // 3))
